@@ -500,6 +500,14 @@ func (p *eparser) primary() (*CExpr, error) {
 				return nil, err
 			}
 			return e, nil
+		case "*":
+			// a pointer type used as an argument, e.g. $tid(*enqItem)
+			p.p--
+			ty, err := p.typeText()
+			if err != nil {
+				return nil, err
+			}
+			return &CExpr{Kind: "ident", Name: ty}, nil
 		case "$":
 			n := p.next()
 			e := &CExpr{Kind: "ghost", Name: n.s}
